@@ -10,7 +10,7 @@ evaluated on the segments read from the REAL database.
 import json
 
 from ..core import Prop, Outcome
-from .. import program, proggen, tracecmp
+from .. import program, proggen, tracecmp, envs
 
 SEG_FIELDS = ['C01', 'C02', 'C03', 'C06db', 'C11', 'C17', 'C10']
 C01_CLAUSES = ['newestIsLive', 'removedIsDelete', 'onlyRealChanges', 'changedHasRow', 'deleteVals', 'pastKept']
@@ -318,7 +318,7 @@ class C03(TraceProp):
             'strategy=validity; after EVERY flush and commit the (table,key,tx,end) skeleton of every version table is '
             'compared with the model and C03.Holds (= Chain) is evaluated on the real tables; non-trivial = >= 2 '
             'transactions with a versioned change or >= 2 flushes in one transaction; distinct = distinct (spec, program)')
-    needs_tags = ['multi_flush_tx', 'multi_tx', 'key_reused_after_delete', 'shape:joined', 'shape:composite']
+    needs_tags = ['multi_flush_tx', 'multi_tx', 'key_reused_after_delete', 'shape:joined', 'shape:composite', 'shape:concrete']
 
     def make_case(self, rng, tier):
         spec = proggen.random_spec(rng, strategy='validity', plugins=[])
@@ -342,11 +342,90 @@ class C03(TraceProp):
                 seen[k] = st[1]
         return False
 
+    # -- concrete-table inheritance: own tables, own key spaces (not a shape of the unit-of-work model: the rows of every
+    #    version table are handed to the Lean `Chain` predicate after every commit) -----------------------------------
+    def gen(self, rng, tier):
+        for c in TraceProp.gen(self, rng, tier):
+            yield c
+        for _ in range(8 if tier == 'quick' else 200):
+            prog = []
+            alive = set()
+            for _s in range(rng.choice([6, 10, 16])):
+                cls = rng.choice(['TextItem', 'Article'])
+                k = rng.choice([1, 1, 2])            # the two classes use the SAME key values
+                r = rng.random()
+                if (cls, k) not in alive:
+                    prog.append(['add', cls, k, rng.randrange(5)])
+                    alive.add((cls, k))
+                elif r < 0.6:
+                    prog.append(['set', cls, k, rng.randrange(5, 50)])
+                elif r < 0.8:
+                    prog.append(['del', cls, k])
+                    alive.discard((cls, k))
+                prog.append(rng.choice([['commit'], ['commit'], ['flush']]))
+            prog.append(['commit'])
+            yield {'kind': 'concrete', 'program': prog, 'spec': {'shape': 'concrete', 'options': {'strategy': 'validity'}}}
+
+    def run_case(self, case):
+        if case.get('kind') != 'concrete':
+            return TraceProp.run_case(self, case)
+        import sqlalchemy_continuum as sc
+        env = envs.Env(envs.shape_concrete({'strategy': 'validity'}))
+        try:
+            s = env.s
+            objs = {}
+            dumps = []
+            raw = lambda: env.conn.connection.dbapi_connection
+            for st in case['program']:
+                if st[0] == 'add':
+                    o = env.classes[st[1]](id=st[2], name='s%d' % st[3])
+                    objs[(st[1], st[2])] = o
+                    s.add(o)
+                elif st[0] == 'set':
+                    objs[(st[1], st[2])].name = 's%d' % st[3]
+                elif st[0] == 'del':
+                    s.delete(objs.pop((st[1], st[2])))
+                elif st[0] == 'flush':
+                    s.flush()
+                elif st[0] == 'commit':
+                    s.commit()
+                    rows = []
+                    for tid, t in enumerate(['text_item_version', 'article_version']):
+                        for r in raw().execute('SELECT id, transaction_id, end_transaction_id, operation_type FROM %s' % t):
+                            rows.append('%d %d %d %s %d - -' % (tid, r[0], r[1], 'N' if r[2] is None else r[2], r[3]))
+                    dumps.append(sorted(rows))
+            return {'dumps': dumps}
+        finally:
+            env.close()
+
+    def lean_lines(self, case, obs):
+        if case.get('kind') != 'concrete':
+            return TraceProp.lean_lines(self, case, obs)
+        lines = ['cfg validity 0 0 0']
+        for d in obs['dumps']:
+            lines += ['iv ' + r for r in d] + ['qchain']
+        return lines
+
     def judge(self, case, obs, answers):
+        if case.get('kind') == 'concrete':
+            out = Outcome()
+            out.tags.append('shape:concrete')
+            for i, a in enumerate(answers):
+                if a != '1':
+                    out.violations.append({'clause': 'C03.Holds', 'detail': {'commit': i, 'rows (table key tx end op)': obs['dumps'][i]}})
+                    break
+            out.nontrivial = len(obs['dumps']) >= 2
+            out.key = json.dumps(case['program'])
+            return out
         out = TraceProp.judge(self, case, obs, answers)
         if self.class_switch(case):
             out.tags.append('class_switch')
         return out
+
+    def shrinks(self, case):
+        if case.get('kind') == 'concrete':
+            return iter(())
+        return TraceProp.shrinks(self, case)
 
 
 class DevAll(TraceProp):
